@@ -1,6 +1,7 @@
 import Lean.Data.Json
 import PV.Base.Crc32
 import PV.Base.B64
+import PV.Model.Pragma
 /-! One-JSON-object-in / one-JSON-object-out driver over the executable models. -/
 namespace PV.Driver
 open Lean
@@ -36,6 +37,32 @@ def handleE (j : Json) : Except String Json := do
   | "a2b" =>
     let cs ← natsOf (← j.getObjVal? "chars")
     pure (Json.mkObj [("ok", optNats (PV.B64.a2b (cs.map Char.ofNat)))])
+  | "pragma" =>
+    -- {"src": [code points], "opts": [[name, bool], ...]} -> [[name, bool], ...]
+    let src ← natsOf (← j.getObjVal? "src")
+    let optsJ ← (← j.getObjVal? "opts").getArr?
+    let opts ← optsJ.toList.mapM (fun p => do
+      let a ← p.getArr?
+      let n ← (a[0]!).getStr?
+      let b ← (a[1]!).getBool?
+      pure (n.toList, b))
+    let r := PV.Pragma.scan (src.map Char.ofNat) opts
+    pure (Json.mkObj [("ok", Json.arr (r.map (fun (n, b) => Json.arr #[Json.str (String.mk n), Json.bool b])).toArray)])
+  | "directives" =>
+    let src ← natsOf (← j.getObjVal? "src")
+    let r := PV.Pragma.directives (src.map Char.ofNat)
+    pure (Json.mkObj [("ok", Json.arr (r.map (fun (n, b) => Json.arr #[Json.str (String.mk n), Json.bool b])).toArray)])
+  | "splitlines" =>
+    let src ← natsOf (← j.getObjVal? "src")
+    let r := PV.PyStr.splitlines (src.map Char.ofNat)
+    pure (Json.mkObj [("ok", Json.arr (r.map (fun l => jNats (l.map Char.toNat))).toArray)])
+  | "strip" =>
+    let src ← natsOf (← j.getObjVal? "src")
+    pure (Json.mkObj [("ok", jNats ((PV.PyStr.strip (src.map Char.ofNat)).map Char.toNat))])
+  | "words" =>
+    let src ← natsOf (← j.getObjVal? "src")
+    let r := PV.PyStr.words (src.map Char.ofNat)
+    pure (Json.mkObj [("ok", Json.arr (r.map (fun l => jNats (l.map Char.toNat))).toArray)])
   | _ => throw s!"unknown-cmd {cmd}"
 
 def handle (j : Json) : Json :=
